@@ -1,0 +1,63 @@
+//go:build verif
+
+package marker
+
+// Contracts for govc (contract-based deductive verification). Comment-only file.
+
+// ---- C02/C03: what the API reports about an alert is what the mute stages told the marker: an alert is reported
+// suppressed exactly when the last verdicts recorded for it name a silence or an inhibiting alert, with exactly those
+// names (copied: later changes of the caller's slice do not leak in), active when both lists are empty, and
+// unprocessed when nothing was recorded.
+//@ spec markerOK(m *alertMarker) bool = m != nil && m.status != nil && (forall f model.Fingerprint :: f in m.status ==> m.status[f] != nil)
+
+//@ func (*alertStatus).state
+//@   props C02 C03
+//@   requires s != nil
+//@   pure
+//@   ensures result == ((len(s.InhibitedBy) > 0 || len(s.SilencedBy) > 0) ? alert.AlertStateSuppressed : alert.AlertStateActive)
+
+//@ func (*alertMarker).SetSilenced
+//@   props C02
+//@   requires markerOK(m)
+//@   ensures [recorded] fp in m.status && len(m.status[fp].SilencedBy) == len(silencedBy) && (forall i int :: 0 <= i && i < len(silencedBy) ==> m.status[fp].SilencedBy[i] == silencedBy[i])
+//@   ensures [own-copy] len(silencedBy) > 0 ==> base(m.status[fp].SilencedBy) != base(silencedBy)
+//@   ensures [inhibition-verdict-kept] old(fp in m.status) ==> m.status[fp] == old(m.status[fp]) && m.status[fp].InhibitedBy == old(m.status[fp].InhibitedBy)
+//@   ensures [new-entry-has-no-inhibitor] !old(fp in m.status) ==> len(m.status[fp].InhibitedBy) == 0
+//@   ensures [others] forall f model.Fingerprint :: f != fp ==> (f in m.status) == old(f in m.status) && m.status[f] == old(m.status[f])
+//@   ensures [ok] markerOK(m)
+//@   ensures [monitor-lock-released] count("RWMutex).Lock") == 1 && count("RWMutex).Unlock") == 1
+//@   assigns m.status[*], alertStatus.SilencedBy
+
+//@ func (*alertMarker).SetInhibited
+//@   props C03
+//@   requires markerOK(m)
+//@   ensures [recorded] fp in m.status && len(m.status[fp].InhibitedBy) == len(inhibitedBy) && (forall i int :: 0 <= i && i < len(inhibitedBy) ==> m.status[fp].InhibitedBy[i] == inhibitedBy[i])
+//@   ensures [own-copy] len(inhibitedBy) > 0 ==> base(m.status[fp].InhibitedBy) != base(inhibitedBy)
+//@   ensures [silence-verdict-kept] old(fp in m.status) ==> m.status[fp] == old(m.status[fp]) && m.status[fp].SilencedBy == old(m.status[fp].SilencedBy)
+//@   ensures [new-entry-has-no-silence] !old(fp in m.status) ==> len(m.status[fp].SilencedBy) == 0
+//@   ensures [others] forall f model.Fingerprint :: f != fp ==> (f in m.status) == old(f in m.status) && m.status[f] == old(m.status[f])
+//@   ensures [ok] markerOK(m)
+//@   ensures [monitor-lock-released] count("RWMutex).Lock") == 1 && count("RWMutex).Unlock") == 1
+//@   assigns m.status[*], alertStatus.InhibitedBy
+
+//@ func (*alertMarker).Status
+//@   props C02 C03
+//@   requires markerOK(m)
+//@   ensures [unprocessed] !(fp in m.status) ==> result.State == alert.AlertStateUnprocessed && len(result.SilencedBy) == 0 && len(result.InhibitedBy) == 0
+//@   ensures [state] fp in m.status ==> result.State == ((len(m.status[fp].InhibitedBy) > 0 || len(m.status[fp].SilencedBy) > 0) ? alert.AlertStateSuppressed : alert.AlertStateActive)
+//@   ensures [silenced-by] fp in m.status ==> len(result.SilencedBy) == len(m.status[fp].SilencedBy) && (forall i int :: 0 <= i && i < len(result.SilencedBy) ==> result.SilencedBy[i] == m.status[fp].SilencedBy[i])
+//@   ensures [inhibited-by] fp in m.status ==> len(result.InhibitedBy) == len(m.status[fp].InhibitedBy) && (forall i int :: 0 <= i && i < len(result.InhibitedBy) ==> result.InhibitedBy[i] == m.status[fp].InhibitedBy[i])
+//@   ensures [never-null-lists] result.SilencedBy != nil && result.InhibitedBy != nil
+//@   ensures [monitor-lock-released] count("RWMutex).RLock") == 1 && count("RWMutex).RUnlock") == 1
+//@   assigns nothing
+
+//@ func (*alertMarker).Delete
+//@   props C02 C03
+//@   requires markerOK(m)
+//@   ensures [deleted] forall f model.Fingerprint :: (f in m.status) == (old(f in m.status) && !(exists i int :: 0 <= i && i < len(alerts) && alerts[i] == f))
+//@   ensures [kept] forall f model.Fingerprint :: f in m.status ==> m.status[f] == old(m.status[f])
+//@   ensures [monitor-lock-released] count("RWMutex).Lock") == 1 && count("RWMutex).Unlock") == 1
+//@   loop 1 invariant rangeindex < len(alerts) && m.status == old(m.status)
+//@   loop 1 invariant forall f model.Fingerprint :: (f in m.status) == (old(f in m.status) && !(exists i int :: 0 <= i && i <= rangeindex && alerts[i] == f))
+//@   loop 1 invariant forall f model.Fingerprint :: f in m.status ==> m.status[f] == old(m.status[f])
+//@   assigns m.status[*]
